@@ -143,6 +143,11 @@ static void dump_node(struct char_vector *cv, struct conf_node_base *b)
         char_vector_append_string(cv, ",\"c\":[");
         for (it = set_first(&o->contents); it; it = set_next(it)) {
             struct conf_node_base *c = set_node_data(it);
+            if (n > set_size(&o->contents) + 2) {
+                /* the child list is longer than the set's count: a cycle or foreign nodes - report instead of walking for ever */
+                char_vector_append_string(cv, ",{\"!child-list-does-not-end\":1}");
+                break;
+            }
             if (n++) char_vector_append(cv, ',');
             if (c->parent != o) char_vector_append_string(cv, "{\"!badparent\":1},");
             dump_node(cv, c);
@@ -570,6 +575,15 @@ static void do_sweep(struct ev *hist, int nh, struct source *src, int report_ok)
                             char_vector_append_string(&line, ",\"dump\":");
                             char_vector_append_string(&line, after);
                             char_vector_append(&line, '}');
+                            put_line(&line);
+                        }
+                        if (strstr(after, "\"!")) {
+                            /* the dumper's own structural alarm: a successful load left a child with a foreign parent or a child list that does not end */
+                            shm->n_viol++;
+                            char_vector_append_string(&line, "{\"violation\":{\"kind\":\"corrupt-tree\",\"rc\":0,\"input\":");
+                            jhex(&line, cand.vec, cand.used);
+                            char_vector_append_string(&line, ",\"after\":"); char_vector_append_string(&line, after);
+                            char_vector_append_string(&line, "}}");
                             put_line(&line);
                         }
                         shm->ok_hash = fnv(after);
